@@ -1,16 +1,18 @@
 package rules
 
 import (
+	"fmt"
 	"go/ast"
 	"go/constant"
 	"go/types"
+	"os"
 
 	"verif/internal/core"
 	"verif/internal/flow"
 )
 
-// c10wrapKind classifies a call of resilience.Wrapper.Wrap in ServerPool.handle by the pool
-// field its receiver comes from: "retry", "breaker" or "".
+// c10wrapKind classifies a call of resilience.Wrapper.Wrap in (the reach of) ServerPool.handle by
+// the pool field its receiver comes from: "retry", "breaker" or "".
 func c10wrapKind(f *flow.Func, call *ast.CallExpr, retryF, cbF *types.Var) string {
 	if !ifaceMethodCall(f, call, c10rs, "Wrapper", "Wrap") {
 		return ""
@@ -25,7 +27,36 @@ func c10wrapKind(f *flow.Func, call *ast.CallExpr, retryF, cbF *types.Var) strin
 	return "?"
 }
 
-// c10Handle decides R-C10-3 and the handle-side halves of R-C10-2 / R-C10-5.
+// c10relevantInline is inlineSamePkg restricted to the callees in whose reach one of the given
+// nodes' enclosing functions lies: helpers that carry a piece of the analysed logic are
+// interpreted in place, unrelated callees (mirror, metrics, cache ...) stay opaque.
+func c10relevantInline(f *flow.Func, carriers map[*ast.BlockStmt]bool, except ...types.Object) func(*ast.CallExpr, *types.Func) *flow.Func {
+	base := inlineSamePkg(f, except...)
+	memo := map[*ast.BlockStmt]bool{}
+	return func(call *ast.CallExpr, callee *types.Func) *flow.Func {
+		g := base(call, callee)
+		if g == nil {
+			return nil
+		}
+		rel, ok := memo[g.Body]
+		if !ok {
+			for _, h := range reach(g, 3) {
+				if carriers[h.Body] {
+					rel = true
+				}
+			}
+			memo[g.Body] = rel
+		}
+		if !rel {
+			return nil
+		}
+		return g
+	}
+}
+
+// c10Handle decides R-C10-3 and the handle-side halves of R-C10-2 / R-C10-5. The code looked at is
+// ServerPool.handle together with the same-package helpers it calls (wrapping and the mapping of
+// the error to the result may live in helpers); the flow analysis interprets those helpers in place.
 func c10Handle(c *core.Ctx) {
 	f := fn(c, c10px, "ServerPool", "handle")
 	retryF := structField(c, c10px, "ServerPool", "retryWrapper")
@@ -36,22 +67,37 @@ func c10Handle(c *core.Ctx) {
 		return
 	}
 	cons := fname(c10px, "ServerPool", "handle")
-	pm := parentMap(f.Body)
+	fs := reach(f, 3)
+	pm := map[ast.Node]ast.Node{}
+	for _, g := range fs {
+		for k, v := range parentMap(g.Body) {
+			pm[k] = v
+		}
+	}
+	carriers := map[*ast.BlockStmt]bool{}
 
 	// ---- subjects
 	wraps := map[*ast.CallExpr]string{}
 	nRetry, nBreaker := 0, 0
-	for _, call := range calls(f.Body, false) {
-		switch k := c10wrapKind(f, call, retryF, cbF); k {
-		case "retry":
-			wraps[call] = k
-			nRetry++
-		case "breaker":
-			wraps[call] = k
-			nBreaker++
-		case "?":
-			c10shape(c, "R-C10-3", cons+"|retry inside breaker", pos(c, call), "Wrapper.Wrap is called on something that is neither sp.retryWrapper nor sp.circuitBreakerWrapper")
-			return
+	for _, g := range fs {
+		for _, call := range calls(g.Body, false) {
+			switch k := c10wrapKind(g, call, retryF, cbF); k {
+			case "retry", "breaker":
+				wraps[call] = k
+				carriers[g.Body] = true
+				if k == "retry" {
+					nRetry++
+				} else {
+					nBreaker++
+				}
+				if _, discarded := pm[call].(*ast.ExprStmt); discarded || len(call.Args) != 1 {
+					c10shape(c, "R-C10-3", cons+"|retry inside breaker", pos(c, call), "the result of Wrap is discarded")
+					return
+				}
+			case "?":
+				c10shape(c, "R-C10-3", cons+"|retry inside breaker", pos(c, call), "Wrapper.Wrap is called on something that is neither sp.retryWrapper nor sp.circuitBreakerWrapper")
+				return
+			}
 		}
 	}
 	okR := c.RequireCount("R-C10-3", "retryWrapper.Wrap call sites in ServerPool.handle", nRetry, 1)
@@ -59,32 +105,18 @@ func c10Handle(c *core.Ctx) {
 	if !okR || !okB {
 		return
 	}
-	// argument / result variables of each Wrap call
-	type io struct{ in, out *ast.Ident }
-	wio := map[*ast.CallExpr]io{}
-	for call := range wraps {
-		var v io
-		if len(call.Args) == 1 {
-			v.in = c10ident(call.Args[0])
-		}
-		if as, ok := pm[call].(*ast.AssignStmt); ok && len(as.Lhs) == 1 && len(as.Rhs) == 1 && as.Rhs[0] == ast.Expr(call) {
-			v.out = c10ident(as.Lhs[0])
-		}
-		if v.in == nil || v.out == nil {
-			c10shape(c, "R-C10-3", cons+"|retry inside breaker", pos(c, call), "Wrap's argument or result is not a plain variable")
-			return
-		}
-		wio[call] = v
-	}
 	// the invocation(s): calls of a local func(context.Context) error variable
 	var invokes []*ast.CallExpr
-	for _, call := range calls(f.Body, false) {
-		id := c10ident(call.Fun)
-		if id == nil {
-			continue
-		}
-		if v, ok := c10obj(f, id).(*types.Var); ok && !v.IsField() && c10isHandlerSig(v.Type()) {
-			invokes = append(invokes, call)
+	for _, g := range fs {
+		for _, call := range calls(g.Body, false) {
+			id := c10ident(call.Fun)
+			if id == nil {
+				continue
+			}
+			if v, ok := c10obj(f, id).(*types.Var); ok && !v.IsField() && c10isHandlerSig(v.Type()) {
+				invokes = append(invokes, call)
+				carriers[g.Body] = true
+			}
 		}
 	}
 	if !c.RequireCount("R-C10-3", "invocations of the wrapped handler in ServerPool.handle", len(invokes), 1) {
@@ -92,18 +124,15 @@ func c10Handle(c *core.Ctx) {
 	}
 	// Request.IsStream() atoms
 	var streamKeys []string
-	for _, call := range calls(f.Body, false) {
-		if calleeIs(f, call, "(*"+c10hp+".Request).IsStream") {
-			streamKeys = append(streamKeys, f.CallKey(call))
-			// a boolean local defined as (the negation of) this call
-			var e ast.Expr = call
-			neg := false
-			if u, ok := pm[call].(*ast.UnaryExpr); ok && u.Op.String() == "!" {
-				e, neg = u, true
-			}
-			if as, ok := pm[e].(*ast.AssignStmt); ok && len(as.Lhs) == 1 && len(as.Rhs) == 1 && !neg {
-				if id := c10ident(as.Lhs[0]); id != nil && len(c10writes(f, f.Body, c10obj(f, id))) == 1 {
-					streamKeys = append(streamKeys, f.VarKey(id))
+	for _, g := range fs {
+		for _, call := range calls(g.Body, false) {
+			if calleeIs(g, call, "(*"+c10hp+".Request).IsStream") {
+				streamKeys = append(streamKeys, f.CallKey(call))
+				// a boolean local defined as this call
+				if as, ok := pm[call].(*ast.AssignStmt); ok && len(as.Lhs) == 1 && len(as.Rhs) == 1 {
+					if id := c10ident(as.Lhs[0]); id != nil && len(c10writes(f, g.Body, c10obj(f, id))) == 1 {
+						streamKeys = append(streamKeys, f.VarKey(id))
+					}
 				}
 			}
 		}
@@ -116,24 +145,37 @@ func c10Handle(c *core.Ctx) {
 		}
 		return flow.Unknown
 	}
+	// nilOf: is the field (read through any receiver / any single-assignment local alias in the
+	// reach) known nil in a state?
 	nilOf := func(fld *types.Var) func(st *flow.State) flow.Val {
+		seen := map[string]bool{}
 		var keys []string
-		if sel := c10firstSel(f, f.Body, fld); sel != nil {
-			keys = append(keys, f.NilKey(sel))
+		add := func(k string) {
+			if !seen[k] {
+				seen[k] = true
+				keys = append(keys, k)
+			}
 		}
-		// local aliases written once, from the field (rw := sp.retryWrapper)
-		ast.Inspect(f.Body, func(n ast.Node) bool {
-			as, ok := n.(*ast.AssignStmt)
-			if !ok || len(as.Lhs) != len(as.Rhs) {
-				return true
-			}
-			for i, l := range as.Lhs {
-				if id := c10ident(l); id != nil && id.Name != "_" && c10fieldSel(f, as.Rhs[i], fld) && len(c10writes(f, f.Body, c10obj(f, id))) == 1 {
-					keys = append(keys, f.NilKey(id))
+		for _, g := range fs {
+			ast.Inspect(g.Body, func(n ast.Node) bool {
+				switch x := n.(type) {
+				case *ast.SelectorExpr:
+					if c10fieldSel(f, x, fld) {
+						add(f.NilKey(x))
+					}
+				case *ast.AssignStmt:
+					if len(x.Lhs) != len(x.Rhs) {
+						return true
+					}
+					for i, l := range x.Lhs {
+						if id := c10ident(l); id != nil && id.Name != "_" && c10fieldSel(f, x.Rhs[i], fld) && len(c10writes(f, g.Body, c10obj(f, id))) == 1 {
+							add(f.NilKey(id))
+						}
+					}
 				}
-			}
-			return true
-		})
+				return true
+			})
+		}
 		return func(st *flow.State) flow.Val {
 			for _, k := range keys {
 				if v := st.Get(k); v != flow.Unknown {
@@ -143,33 +185,40 @@ func c10Handle(c *core.Ctx) {
 			return flow.Unknown
 		}
 	}
-	retryNil, cbNil := nilOf(retryF), nilOf(cbF)
+	retryNil, cbNil, respNil := nilOf(retryF), nilOf(cbF), nilOf(respF)
 
 	// the type assertion err.(serverPoolError) and buildFailureResponse
 	var speVar, okVar *ast.Ident
-	ast.Inspect(f.Body, func(n ast.Node) bool {
-		as, ok := n.(*ast.AssignStmt)
-		if !ok || len(as.Lhs) != 2 || len(as.Rhs) != 1 {
+	for _, g := range fs {
+		ast.Inspect(g.Body, func(n ast.Node) bool {
+			as, ok := n.(*ast.AssignStmt)
+			if !ok || len(as.Lhs) != 2 || len(as.Rhs) != 1 {
+				return true
+			}
+			if ta, ok := ast.Unparen(as.Rhs[0]).(*ast.TypeAssertExpr); ok && ta.Type != nil {
+				if tv, ok := f.Info.Types[ta.Type]; ok && types.Identical(tv.Type, speT) && speVar == nil {
+					speVar, okVar = c10ident(as.Lhs[0]), c10ident(as.Lhs[1])
+					carriers[g.Body] = true
+				}
+			}
 			return true
-		}
-		if ta, ok := ast.Unparen(as.Rhs[0]).(*ast.TypeAssertExpr); ok && ta.Type != nil {
-			if tv, ok := f.Info.Types[ta.Type]; ok && types.Identical(tv.Type, speT) {
-				speVar, okVar = c10ident(as.Lhs[0]), c10ident(as.Lhs[1])
-			}
-		}
-		return true
-	})
-	isSpeCode := func(e ast.Expr) bool {
+		})
+	}
+	speMember := func(e ast.Expr, method, field string) bool {
 		if speVar == nil {
 			return false
 		}
 		e = ast.Unparen(e)
 		if call, ok := e.(*ast.CallExpr); ok {
-			if !calleeIs(f, call, "("+c10px+".serverPoolError).Code") {
+			if !calleeIs(f, call, "("+c10px+".serverPoolError)."+method) {
 				return false
 			}
 			e = c10recv(call)
-		} else if sel, ok := e.(*ast.SelectorExpr); ok && sel.Sel.Name == "code" {
+		} else if sel, ok := e.(*ast.SelectorExpr); ok {
+			s := f.Info.Selections[sel]
+			if s == nil || s.Obj().Name() != field || !types.Identical(s.Recv(), speT) {
+				return false
+			}
 			e = sel.X
 		} else {
 			return false
@@ -177,44 +226,27 @@ func c10Handle(c *core.Ctx) {
 		id := c10ident(e)
 		return id != nil && c10obj(f, id) == c10obj(f, speVar)
 	}
-	isSpeResult := func(e ast.Expr) bool {
-		if speVar == nil {
-			return false
-		}
-		e = ast.Unparen(e)
-		if call, ok := e.(*ast.CallExpr); ok {
-			if !calleeIs(f, call, "("+c10px+".serverPoolError).Result") {
-				return false
-			}
-			e = c10recv(call)
-		} else if sel, ok := e.(*ast.SelectorExpr); ok && sel.Sel.Name == "result" {
-			e = sel.X
-		} else {
-			return false
-		}
-		id := c10ident(e)
-		return id != nil && c10obj(f, id) == c10obj(f, speVar)
-	}
+	isSpeCode := func(e ast.Expr) bool { return speMember(e, "Code", "code") }
+	isSpeResult := func(e ast.Expr) bool { return speMember(e, "Result", "result") }
 
-	flag := func(kind string, id *ast.Ident) string { return "ev:" + kind + ":" + f.Render(id) }
+	const evRetry, evBreaker = "ev:retryApplied", "ev:breakerApplied"
 	var badOrder *flow.State
 	var badOrderAt ast.Node
 	res := analyze(c, f, flow.Config{
 		NoHavoc: true,
+		Inline:  c10relevantInline(f, carriers),
 		OnCall: func(st *flow.State, call *ast.CallExpr, callee types.Object, deferred bool) {
 			if k, ok := wraps[call]; ok {
-				v := wio[call]
-				inRetry, inCB := st.Get(flag("retry", v.in)), st.Get(flag("breaker", v.in))
-				if k == "retry" && inCB == flow.True && badOrder == nil {
-					badOrder, badOrderAt = st, call
-				}
+				// the wrappers form one chain on the path (the result of each Wrap is kept): what
+				// has been applied before this call is inside what is applied now
 				if k == "retry" {
-					inRetry = flow.True
+					if st.Is(evBreaker, flow.True) && badOrder == nil {
+						badOrder, badOrderAt = st, call
+					}
+					st.Set(evRetry, flow.True)
 				} else {
-					inCB = flow.True
+					st.Set(evBreaker, flow.True)
 				}
-				st.Set(flag("retry", v.out), inRetry)
-				st.Set(flag("breaker", v.out), inCB)
 				return
 			}
 			if calleeIs(f, call, "(*"+c10px+".ServerPool).buildFailureResponse") {
@@ -225,29 +257,14 @@ func c10Handle(c *core.Ctx) {
 				}
 			}
 		},
-		OnNode: func(st *flow.State, n ast.Node) {
-			// y := x between handler-typed variables carries the flags along
-			as, ok := n.(*ast.AssignStmt)
-			if !ok || len(as.Lhs) != len(as.Rhs) {
-				return
-			}
-			for i := range as.Lhs {
-				l, r := c10ident(as.Lhs[i]), c10ident(as.Rhs[i])
-				if l == nil || r == nil || l.Name == "_" {
-					continue
-				}
-				if v, ok := c10obj(f, r).(*types.Var); !ok || !c10isHandlerSig(v.Type()) {
-					continue
-				}
-				st.Set(flag("retry", l), st.Get(flag("retry", r)))
-				st.Set(flag("breaker", l), st.Get(flag("breaker", r)))
-			}
-		},
 	})
 	if res == nil {
 		return
 	}
-
+	inlined := ""
+	if len(res.Inlined) > 0 {
+		inlined = sprintf(" (helpers interpreted in place: %v)", res.Inlined)
+	}
 	// ---- R-C10-3: order
 	c.Check(badOrder == nil, "R-C10-3", cons+"|retry inside breaker", pos(c, func() ast.Node {
 		if badOrderAt != nil {
@@ -292,10 +309,9 @@ func c10Handle(c *core.Ctx) {
 	nInv := 0
 	okArg := true
 	for _, inv := range invokes {
-		id := c10ident(inv.Fun)
 		for _, st := range res.At[inv] {
 			nInv++
-			hasRetry, hasCB := st.Is(flag("retry", id), flow.True), st.Is(flag("breaker", id), flow.True)
+			hasRetry, hasCB := st.Is(evRetry, flow.True), st.Is(evBreaker, flow.True)
 			switch {
 			case badTable != nil:
 			case hasRetry && (retryNil(st) != flow.False || isStream(st) != flow.False):
@@ -320,7 +336,7 @@ func c10Handle(c *core.Ctx) {
 		c.Violate("R-C10-3", cons+"|wrappers applied iff configured", pos(c, invokes[0]), "the wrapped handler is never invoked")
 	} else {
 		c.Check(badTable == nil, "R-C10-3", cons+"|wrappers applied iff configured", pos(c, invokes[0]),
-			sprintf("%d state(s) at the invocation: retry present iff retryWrapper != nil and not a stream, breaker present iff circuitBreakerWrapper != nil", nInv),
+			sprintf("%d state(s) at the invocation: retry present iff retryWrapper != nil and not a stream, breaker present iff circuitBreakerWrapper != nil%s", nInv, inlined),
 			whyTable, witness(badTable)...)
 	}
 	c.Check(okArg, "R-C10-2", cons+"|client context handed to the handler", pos(c, invokes[0]),
@@ -333,13 +349,6 @@ func c10Handle(c *core.Ctx) {
 		return
 	}
 	okKey := f.VarKey(okVar)
-	respSel := c10firstSel(f, f.Body, respF)
-	respNil := func(st *flow.State) flow.Val {
-		if respSel == nil {
-			return flow.Unknown
-		}
-		return st.Get(f.NilKey(respSel))
-	}
 	var badRes, badResp *flow.Exit
 	whyResp := ""
 	n := 0
@@ -348,7 +357,7 @@ func c10Handle(c *core.Ctx) {
 			continue
 		}
 		n++
-		if (len(ex.Return.Results) != 1 || !isSpeResult(ex.Return.Results[0])) && badRes == nil {
+		if ret := ex.Ret(); (len(ret.Results) != 1 || !isSpeResult(ret.Results[0])) && badRes == nil {
 			badRes = ex
 		}
 		built := ex.State.Is("ev:failresp", flow.True)
@@ -370,7 +379,7 @@ func c10Handle(c *core.Ctx) {
 		if ex == nil {
 			return nil
 		}
-		return append([]string{"return at " + pos(c, ex.Return)}, witness(ex.State)...)
+		return append([]string{"return at " + pos(c, ex.Ret())}, witness(ex.State)...)
 	}
 	c.Check(badRes == nil, "R-C10-5", cons+"|result from serverPoolError", pos(c, invokes[0]),
 		sprintf("%d exit(s) with a serverPoolError return its result", n),
@@ -388,27 +397,81 @@ func c10Attempt(c *core.Ctx) {
 		return
 	}
 	cons := fname(c10px, "ServerPool", "handle") + "$attempt"
-	pm := parentMap(f.Body)
-	dos := callsTo(f, f.Body, true, "(*"+c10px+".ServerPool).doHandle")
+	doObj := func() types.Object {
+		if g := fnOpt(c, c10px, "ServerPool", "doHandle"); g != nil {
+			return g.Info.Defs[g.Node.(*ast.FuncDecl).Name]
+		}
+		return nil
+	}()
+	// role: the function literal with the handler signature, in handle or a helper of it, from
+	// which doHandle is reached (directly or through same-package helpers such as an extracted
+	// "one attempt" method)
+	var lit *ast.FuncLit
+	var lf *flow.Func
+	var dos []*ast.CallExpr
+	var unit []*flow.Func // the literal and the helpers between it and doHandle
+	direct := 0
+	for _, g := range reach(f, 2) {
+		if g.Node == ast.Node(c10fnNode(doObj, g)) {
+			continue
+		}
+		direct += len(callsTo(g, g.Body, false, "(*"+c10px+".ServerPool).doHandle"))
+		ast.Inspect(g.Body, func(n ast.Node) bool {
+			l, ok := n.(*ast.FuncLit)
+			if !ok {
+				return true
+			}
+			if tv, ok := g.Info.Types[l]; !ok || !c10isHandlerSig(tv.Type) {
+				return true
+			}
+			cand := g.Lit(l)
+			var found []*ast.CallExpr
+			var fns []*flow.Func
+			for _, h := range reach(cand, 3) {
+				if doObj != nil && h.Info.Defs[c10fnName(h)] == doObj {
+					continue
+				}
+				fns = append(fns, h)
+				found = append(found, callsTo(h, h.Body, true, "(*"+c10px+".ServerPool).doHandle")...)
+			}
+			if len(found) > 0 {
+				if lit != nil && lit != l {
+					lit = nil
+					return false
+				}
+				lit, lf, dos, unit = l, cand, found, fns
+			}
+			return false
+		})
+	}
 	if !c.RequireCount("R-C10-4", "doHandle call sites in ServerPool.handle", len(dos), 1) {
 		return
 	}
-	var lit *ast.FuncLit
-	for _, d := range dos {
-		l := c10enclosingLit(pm, d)
-		if l == nil || (lit != nil && l != lit) {
-			c10shape(c, "R-C10-4", cons+"|response reset per attempt", pos(c, d), "doHandle is not called from a single function literal of handle")
-			return
-		}
-		lit = l
+	if lit == nil {
+		c10shape(c, "R-C10-4", cons+"|response reset per attempt", pos(c, dos[0]), "doHandle is not reached from a single function literal of handle")
+		return
 	}
-	lf := f.Lit(lit)
 	ctxP := c10paramObj(f, lit.Type, 0)
 	if ctxP == nil || !c10isCtxType(ctxP.Type()) {
 		c.Errorf("R-C10-4: anchor: the attempt closure has no named context.Context parameter")
 		return
 	}
-	tests := c10signTests(f, lit.Body, timeoutF)
+	carriers := map[*ast.BlockStmt]bool{}
+	var tests []c10sign
+	for _, h := range unit {
+		tests = append(tests, c10signTests(f, h.Body, timeoutF)...)
+		if len(callsTo(h, h.Body, true, "(*"+c10px+".ServerPool).doHandle")) > 0 {
+			carriers[h.Body] = true
+		}
+	}
+	bodyOf := func(n ast.Node) ast.Node {
+		for _, h := range unit {
+			if contains(h.Body, n) {
+				return h.Body
+			}
+		}
+		return lit.Body
+	}
 
 	good := func(st *flow.State, id *ast.Ident) bool {
 		if id == nil {
@@ -421,6 +484,36 @@ func c10Attempt(c *core.Ctx) {
 	}
 	res := analyze(c, lf, flow.Config{
 		NoHavoc: true,
+		Inline:  c10relevantInline(lf, carriers, doObj),
+		OnCall: func(st *flow.State, call *ast.CallExpr, callee types.Object, deferred bool) {
+			// a context handed to a same-package helper keeps its status under the parameter's name
+			fo, ok := callee.(*types.Func)
+			if !ok || fo == doObj {
+				return
+			}
+			fd := declOf(f.Pkg, fo)
+			if fd == nil || fd.Type.Params == nil {
+				return
+			}
+			k := 0
+			for _, fld := range fd.Type.Params.List {
+				if len(fld.Names) == 0 {
+					k++
+					continue
+				}
+				for _, name := range fld.Names {
+					if k < len(call.Args) && c10isCtxType(f.Info.Defs[name].Type()) {
+						arg := c10ident(call.Args[k])
+						key := lf.Render(name)
+						st.Set("ev:ctxgood:"+key, map[bool]flow.Val{true: flow.True, false: flow.False}[good(st, arg)])
+						if arg != nil {
+							st.Set("ev:deadline:"+key, st.Get("ev:deadline:"+lf.Render(arg)))
+						}
+					}
+					k++
+				}
+			}
+		},
 		OnNode: func(st *flow.State, n ast.Node) {
 			as, ok := n.(*ast.AssignStmt)
 			if !ok {
@@ -457,7 +550,7 @@ func c10Attempt(c *core.Ctx) {
 						deadline = st.Get("ev:deadline:" + lf.Render(src))
 						switch calleeFull(f, call) {
 						case "context.WithTimeout", "context.WithDeadline":
-							if len(call.Args) == 2 && c10mentions(f, call.Args[1], timeoutF) {
+							if len(call.Args) == 2 && c10mentions(f, c10alias(f, bodyOf(call), call.Args[1]), timeoutF) {
 								deadline = flow.True
 							}
 						}
@@ -520,7 +613,7 @@ func c10Attempt(c *core.Ctx) {
 		"doHandle receives the closure's ctx parameter or a context derived from it",
 		"doHandle receives a context that is not derived from the closure's ctx parameter: the client's cancellation does not reach the backend call", witness(badCtx)...)
 	c.Check(badDL == nil, "R-C10-4", cons+"|deadline iff timeout configured", pos(c, dos[0]),
-		sprintf("%d state(s): WithTimeout(ctx, sp.timeout) applied exactly when sp.timeout > 0", n), whyDL, witness(badDL)...)
+		sprintf("%d state(s): WithTimeout(ctx, sp.timeout) applied exactly when sp.timeout > 0 (helpers interpreted in place: %v)", n, res.Inlined), whyDL, witness(badDL)...)
 }
 
 // c10ctxDerived reports whether ident id (a context variable of fn f) is the parameter param or
@@ -572,7 +665,13 @@ func c10DoHandle(c *core.Ctx) {
 		return
 	}
 	cons := fname(c10px, "ServerPool", "doHandle")
-	pm := parentMap(f.Body)
+	fs := reach(f, 3)
+	pm := map[ast.Node]ast.Node{}
+	for _, g := range fs {
+		for k, v := range parentMap(g.Body) {
+			pm[k] = v
+		}
+	}
 	ctxP := c10paramObj(f, f.Type, 0)
 	if ctxP == nil || !c10isCtxType(ctxP.Type()) {
 		c.Errorf("R-C10-4: anchor: doHandle's first parameter is not a named context.Context")
@@ -622,51 +721,123 @@ func c10DoHandle(c *core.Ctx) {
 
 	// ---- the context-error expressions consulted
 	type ctxErr struct {
-		x      string // rendering of the variable / expression holding ctx.Err()
+		xs     []string // renderings of the call and of every variable / parameter the value is bound to
 		call   *ast.CallExpr
 		recvOK bool
 		why    string
 	}
-	var errs []ctxErr
-	for _, call := range calls(f.Body, false) {
-		if calleeFull(f, call) != "(context.Context).Err" {
-			continue
+	// paramFor returns the parameter identifier of the same-package callee of `outer` that
+	// receives outer's argument arg.
+	paramFor := func(outer *ast.CallExpr, arg ast.Expr) *ast.Ident {
+		fo, ok := f.Callee(outer).(*types.Func)
+		if !ok || fo.Pkg() != f.Pkg.Types {
+			return nil
 		}
-		ce := ctxErr{call: call, x: f.Render(call)}
-		if as, ok := pm[call].(*ast.AssignStmt); ok && len(as.Lhs) == 1 && len(as.Rhs) == 1 {
-			if id := c10ident(as.Lhs[0]); id != nil {
-				ce.x = f.Render(id)
+		fd := declOf(f.Pkg, fo)
+		if fd == nil || fd.Type.Params == nil {
+			return nil
+		}
+		k := 0
+		for _, fld := range fd.Type.Params.List {
+			if len(fld.Names) == 0 {
+				k++
+				continue
+			}
+			for _, name := range fld.Names {
+				if k < len(outer.Args) && ast.Unparen(outer.Args[k]) == ast.Unparen(arg) {
+					return name
+				}
+				k++
 			}
 		}
-		recv := c10alias(f, f.Body, c10recv(call))
-		switch r := ast.Unparen(recv).(type) {
-		case *ast.CallExpr:
-			switch {
-			case calleeFull(f, r) == "(*net/http.Request).Context" && c10fieldSel(f, c10alias(f, f.Body, c10recv(r)), stdReqF):
-				ce.recvOK = true
-			case calleeIs(f, r, "(*"+c10hp+".Request).Context"):
-				ce.why = "the client's request context (it carries no pool timeout: an expired pool timeout is classified as 503/serverError instead of 408/timeout)"
+		return nil
+	}
+	var bound func(o types.Object, depth int) []string
+	bound = func(o types.Object, depth int) []string {
+		var out []string
+		if o == nil || depth > 3 {
+			return nil
+		}
+		for _, g := range fs {
+			for _, outer := range calls(g.Body, true) {
+				for _, a := range outer.Args {
+					if id := c10ident(a); id != nil && c10obj(f, id) == o {
+						if p := paramFor(outer, a); p != nil {
+							out = append(out, f.Render(p))
+							out = append(out, bound(f.Info.Defs[p], depth+1)...)
+						}
+					}
+				}
+			}
+		}
+		return out
+	}
+	var errs []ctxErr
+	carriers := map[*ast.BlockStmt]bool{}
+	for _, g := range fs {
+		ast.Inspect(g.Body, func(n ast.Node) bool {
+			switch x := n.(type) {
+			case *ast.CompositeLit:
+				if tv, ok := f.Info.Types[x]; ok && types.Identical(tv.Type, speT) {
+					carriers[g.Body] = true
+				}
+			case *ast.SelectorExpr:
+				if v, ok := f.Info.Uses[x.Sel].(*types.Var); ok && v.Pkg() != nil && v.Pkg().Path() == "context" && v.Name() == "DeadlineExceeded" {
+					carriers[g.Body] = true
+				}
+			}
+			return true
+		})
+		for _, call := range calls(g.Body, false) {
+			if calleeFull(f, call) != "(context.Context).Err" {
+				continue
+			}
+			carriers[g.Body] = true
+			ce := ctxErr{call: call, xs: []string{f.Render(call)}}
+			switch par := pm[call].(type) {
+			case *ast.AssignStmt:
+				if len(par.Lhs) == 1 && len(par.Rhs) == 1 {
+					if id := c10ident(par.Lhs[0]); id != nil {
+						ce.xs = append(ce.xs, f.Render(id))
+						ce.xs = append(ce.xs, bound(c10obj(f, id), 0)...)
+					}
+				}
+			case *ast.CallExpr:
+				if p := paramFor(par, call); p != nil {
+					ce.xs = append(ce.xs, f.Render(p))
+					ce.xs = append(ce.xs, bound(f.Info.Defs[p], 0)...)
+				}
+			}
+			recv := c10alias(f, g.Body, c10recv(call))
+			switch r := ast.Unparen(recv).(type) {
+			case *ast.CallExpr:
+				switch {
+				case calleeFull(f, r) == "(*net/http.Request).Context" && c10fieldSel(f, c10alias(f, g.Body, c10recv(r)), stdReqF):
+					ce.recvOK = true
+				case calleeIs(f, r, "(*"+c10hp+".Request).Context"):
+					ce.why = "the client's request context (it carries no pool timeout: an expired pool timeout is classified as 503/serverError instead of 408/timeout)"
+				default:
+					ce.why = "?"
+				}
+			case *ast.Ident:
+				if g == f && c10ctxDerived(f, f.Body, r, ctxP) {
+					ce.recvOK = true
+				} else {
+					ce.why = "?"
+				}
 			default:
 				ce.why = "?"
 			}
-		case *ast.Ident:
-			if c10ctxDerived(f, f.Body, r, ctxP) {
-				ce.recvOK = true
-			} else {
-				ce.why = "?"
-			}
-		default:
-			ce.why = "?"
+			errs = append(errs, ce)
 		}
-		errs = append(errs, ce)
 	}
 	dlKeys := func(x string) []string {
 		ks := []string{"eq:" + x + "==@context.DeadlineExceeded"}
-		for _, call := range calls(f.Body, false) {
-			if calleeFull(f, call) == "errors.Is" && len(call.Args) == 2 && f.Render(call.Args[0]) == x {
-				if g := f.Render(call.Args[1]); g == "context.DeadlineExceeded" || g == "stdcontext.DeadlineExceeded" {
+		for _, g := range fs {
+			for _, call := range calls(g.Body, false) {
+				if calleeFull(f, call) == "errors.Is" && len(call.Args) == 2 && f.Render(call.Args[0]) == x {
 					if sel, ok := ast.Unparen(call.Args[1]).(*ast.SelectorExpr); ok {
-						if v, ok := f.Info.Uses[sel.Sel].(*types.Var); ok && v.Pkg() != nil && v.Pkg().Path() == "context" {
+						if v, ok := f.Info.Uses[sel.Sel].(*types.Var); ok && v.Pkg() != nil && v.Pkg().Path() == "context" && v.Name() == "DeadlineExceeded" {
 							ks = append(ks, f.CallKey(call))
 						}
 					}
@@ -674,6 +845,33 @@ func c10DoHandle(c *core.Ctx) {
 			}
 		}
 		return ks
+	}
+
+	// what a state knows about the value of the i-th ctx.Err() call: the engine's facts about any
+	// of its names, remembered as events as soon as a branch establishes them (the value of one
+	// evaluation of Err() does not change; the events are reset when the call is evaluated again).
+	// Needed because facts about a value handed through helper parameters can be dropped when the
+	// same helper is interpreted a second time (see the engine note in the reply).
+	errIdx := map[*ast.CallExpr]int{}
+	nilKeys := make([][]string, len(errs))
+	dlKeysOf := make([][]string, len(errs))
+	for i, ce := range errs {
+		errIdx[ce.call] = i
+		for _, x := range ce.xs {
+			nilKeys[i] = append(nilKeys[i], "nil:"+x)
+			dlKeysOf[i] = append(dlKeysOf[i], dlKeys(x)...)
+		}
+	}
+	known := func(st *flow.State, ev string, keys []string) flow.Val {
+		if v := st.Get(ev); v != flow.Unknown {
+			return v
+		}
+		for _, k := range keys {
+			if v := st.Get(k); v != flow.Unknown {
+				return v
+			}
+		}
+		return flow.Unknown
 	}
 
 	// the response read (header already received; the body is read under the same context)
@@ -689,7 +887,12 @@ func c10DoHandle(c *core.Ctx) {
 
 	res := analyze(c, f, flow.Config{
 		NoHavoc: true,
+		Inline:  c10relevantInline(f, carriers),
 		OnCall: func(st *flow.State, call *ast.CallExpr, callee types.Object, deferred bool) {
+			if i, ok := errIdx[call]; ok {
+				st.Set(sprintf("ev:ctxnil:%d", i), flow.Unknown)
+				st.Set(sprintf("ev:ctxdl:%d", i), flow.Unknown)
+			}
 			if call == send {
 				st.Set("ev:sent", flow.True)
 				st.Set("ev:sendfailed", flow.Unknown)
@@ -711,6 +914,14 @@ func c10DoHandle(c *core.Ctx) {
 			}
 		},
 		AfterAssume: func(st *flow.State, cond ast.Expr, outcome bool) {
+			for i := range errs {
+				if v := known(st, sprintf("ev:ctxnil:%d", i), nilKeys[i]); v != flow.Unknown {
+					st.Set(sprintf("ev:ctxnil:%d", i), v)
+				}
+				if v := known(st, sprintf("ev:ctxdl:%d", i), dlKeysOf[i]); v != flow.Unknown {
+					st.Set(sprintf("ev:ctxdl:%d", i), v)
+				}
+			}
 			if st.Is("ev:sent", flow.True) && st.Get("ev:sendfailed") == flow.Unknown && !st.Is("ev:sendlost", flow.True) {
 				switch st.Get(sendErrKey) {
 				case flow.True:
@@ -739,8 +950,8 @@ func c10DoHandle(c *core.Ctx) {
 	}
 	// retLit reads a returned constant serverPoolError{code, result}
 	retLit := func(ex *flow.Exit) (code, result string, okLit bool) {
-		if len(ex.Return.Results) == 1 {
-			if cl, ok := ast.Unparen(ex.Return.Results[0]).(*ast.CompositeLit); ok {
+		if ret := ex.Ret(); len(ret.Results) == 1 {
+			if cl, ok := ast.Unparen(ret.Results[0]).(*ast.CompositeLit); ok {
 				if tv, ok := f.Info.Types[cl]; ok && types.Identical(tv.Type, speT) && len(cl.Elts) == 2 {
 					var ce, re ast.Expr
 					for i, el := range cl.Elts {
@@ -771,14 +982,9 @@ func c10DoHandle(c *core.Ctx) {
 	}
 	// ctxRow tells which row of the table a state is on ("" = not distinguished)
 	ctxRow := func(st *flow.State) string {
-		for _, ce := range errs {
-			nilV := st.Get("nil:" + ce.x)
-			dl := flow.Unknown
-			for _, k := range dlKeys(ce.x) {
-				if v := st.Get(k); v != flow.Unknown {
-					dl = v
-				}
-			}
+		for i := range errs {
+			nilV := known(st, sprintf("ev:ctxnil:%d", i), nilKeys[i])
+			dl := known(st, sprintf("ev:ctxdl:%d", i), dlKeysOf[i])
 			switch {
 			case nilV == flow.True:
 				return "nil"
@@ -818,10 +1024,10 @@ func c10DoHandle(c *core.Ctx) {
 		if !okLit {
 			if bad == nil {
 				k := "violate"
-				if len(ex.Return.Results) == 1 && !f.Info.Types[ex.Return.Results[0]].IsNil() {
+				if len(ex.Ret().Results) == 1 && !f.Info.Types[ex.Ret().Results[0]].IsNil() {
 					k = "shape"
 				}
-				bad = &row{ex, "after a failed send doHandle returns " + types.ExprString(ex.Return.Results[0]) + " instead of a constant serverPoolError{code, result}", k}
+				bad = &row{ex, "after a failed send doHandle returns " + c10retString(ex.Ret()) + " instead of a constant serverPoolError{code, result}", k}
 			}
 			continue
 		}
@@ -832,6 +1038,9 @@ func c10DoHandle(c *core.Ctx) {
 		}
 		if which == "" {
 			if bad == nil {
+				if os.Getenv("VERIF_C10_DEBUG") != "" {
+					fmt.Fprintln(os.Stderr, "DEBUG facts:", st.Facts(), "errs:", errs)
+				}
 				bad = &row{ex, sprintf("after a failed send doHandle returns (%s, %s) on a path that has not distinguished context error nil / DeadlineExceeded / other: timeouts, backend failures and client disconnects are not told apart", code, result), "violate"}
 			}
 			continue
@@ -852,9 +1061,9 @@ func c10DoHandle(c *core.Ctx) {
 	}
 	switch {
 	case bad != nil && bad.kind == "shape":
-		c10shape(c, "R-C10-5", cons+"|send-failure table", pos(c, bad.ex.Return), bad.why)
+		c10shape(c, "R-C10-5", cons+"|send-failure table", pos(c, bad.ex.Ret()), bad.why)
 	case bad != nil:
-		c.Violate("R-C10-5", cons+"|send-failure table", pos(c, bad.ex.Return), bad.why, witness(bad.ex.State)...)
+		c.Violate("R-C10-5", cons+"|send-failure table", pos(c, bad.ex.Ret()), bad.why, witness(bad.ex.State)...)
 	case rows["nil"] == 0 || rows["deadline"] == 0 || rows["other"] == 0:
 		c.Violate("R-C10-5", cons+"|send-failure table", pos(c, send), sprintf("the send-failure exits do not cover all three rows (nil: %d, DeadlineExceeded: %d, other: %d)", rows["nil"], rows["deadline"], rows["other"]))
 	default:
@@ -929,7 +1138,16 @@ func c10DoHandle(c *core.Ctx) {
 	}
 	okFlow := true
 	for _, p := range preps {
-		if len(p.Args) < 2 || !c10ctxDerived(f, f.Body, c10ident(p.Args[1]), ctxP) {
+		// the context argument, wherever it stands in the parameter list
+		var ctxArg *ast.Ident
+		nctx := 0
+		for _, a := range p.Args {
+			if tv, ok := f.Info.Types[a]; ok && c10isCtxType(tv.Type) {
+				ctxArg = c10ident(a)
+				nctx++
+			}
+		}
+		if nctx != 1 || !c10ctxDerived(f, f.Body, ctxArg, ctxP) {
 			okFlow, at = false, p
 		}
 	}
@@ -1029,4 +1247,28 @@ func c10Prepare(c *core.Ctx) {
 	c.Check(good == stores, "R-C10-4", cons+"|deadline reaches the backend request", pos(c, at),
 		"spCtx.stdReq is the request built by http.NewRequestWithContext(ctx, ...) with prepareRequest's ctx parameter",
 		"the request stored in spCtx.stdReq is not built with prepareRequest's ctx parameter (NewRequestWithContext / WithContext): the pool timeout and the client's cancellation do not bound the backend call, which may hang")
+}
+
+// fnName returns the name identifier of a declared function (nil for literals).
+func c10fnName(g *flow.Func) *ast.Ident {
+	if fd, ok := g.Node.(*ast.FuncDecl); ok {
+		return fd.Name
+	}
+	return nil
+}
+
+// fnNode returns g's node if g is the declaration of o, else nil.
+func c10fnNode(o types.Object, g *flow.Func) ast.Node {
+	if id := c10fnName(g); id != nil && o != nil && g.Info.Defs[id] == o {
+		return g.Node
+	}
+	return nil
+}
+
+// c10retString renders the returned expressions of a return statement.
+func c10retString(r *ast.ReturnStmt) string {
+	if r == nil || len(r.Results) == 0 {
+		return "(nothing)"
+	}
+	return types.ExprString(r.Results[0])
 }
